@@ -139,3 +139,5 @@ LEVEL = {
 CFG['rule'] = CFG['rule'] + ' ' + 'Additions: flat indexes with a learned binary quantiser and, in every sixth history, a product quantiser trained inside the history; chain-shaped graphs in every second graph history; the warm answer and the answer of a fresh shard object on THE SAME FILE (cold) are compared first (codes 113 / 114), then each is judged against the reference.'
 
 CFG['rule'] = CFG['rule'] + ' ' + 'A sixth configuration: in-memory backend with caching disabled (every read decodes from the store). Delete batches sometimes remove every live point (index structures with no entries).'
+
+CFG['rule'] = CFG['rule'] + ' ' + 'Every second history searches the (empty) vector indexes before anything is written; graph indexes also get one query without a pre-filter per step.'
